@@ -364,4 +364,253 @@ example : (run Cfg.fixed (St.init (fun _ => sortMeths ["B", "A"]) (fun v => if v
      .mock 0 0 "B" .ap 0, .cancelM 0 0 "A", .mock 0 0 "B" .rt 0, .reset 0]).map
       (fun s => (s.vars 0, s.vars 1, callSlot s 2 "A")) = some (.val 0, .val 5, some (.stub 2)) := by decide
 
+theorem interfaceOf_reuse (cfg : Cfg) (s : St) (b v j : Nat) (hl : lookup (bkey cfg s v) (s.blds b).mockers = some j)
+    (hlive : (s.ctxs (s.cms j).ctx).canceled = false) : interfaceOf cfg s b v = (j, s) := by
+  simp [interfaceOf, hl, hlive]
+
+/-- **while the context is live the itab is reused** (closes the gap left by the disjunction of `dispatch_frame`): in a
+    reachable state in which variable `v` holds the fake interface `f` of context `c`, `c` is not cancelled and it is the
+    context of the builder's cached mocker for `v`, a further successful mock of `m` through that builder keeps `v`
+    pointing at the SAME fake interface and changes exactly one slot — every other method keeps its slot, hence (by
+    induction over a history without Reset/Cancel) every mocked method keeps its own latest replacement. -/
+theorem dispatch_frame_live (s s' : St) (hr : Reachable s) (b v : Nat) (m : String) (kind : Kind) (csig : Nat)
+    (hns : NoShadow (s.types (s.vtyp v)) m) (hs : step Cfg.fixed s (.mock b v m kind csig) = some (s', .ok))
+    (f c j : Nat) (hv : s.vars v = .fake f c) (hl : lookup (bkey Cfg.fixed s v) (s.blds b).mockers = some j)
+    (hc : (s.cms j).ctx = c) (hlive : (s.ctxs c).canceled = false) :
+    s'.vars v = .fake f c ∧ (s'.fakes f).fn = upd (s.fakes f).fn ((s.types (s.vtyp v)).idxOf m) (.stub s.ncb) := by
+  have hI := reachable_inv hr
+  have hI0 := inv_ncb Cfg.fixed s (s.ncb + 1) hI
+  simp only [step, mockStep] at hs
+  rw [interfaceOf_reuse Cfg.fixed { s with ncb := s.ncb + 1 } b v j hl (by rw [hc]; exact hlive)] at hs
+  simp only at hs
+  obtain ⟨s2, s3, i, hI2, hfit, g1, g2, g3, g4, g5, hmem, g6, g7, g8, g9, g10, g11, hp, he⟩ :=
+    mockOn_ok Cfg.fixed _ s' j m kind _ s.ncb hI0 hs
+  have hj : j < s.ncm := hI.f b _ j hl
+  have hvar : (s.cms j).var = v := hI.h rfl b v j hl
+  have htyp : (s2.cms j).typ = s.vtyp v := by rw [g5]; simp only; rw [(hI.e j hj).2, hvar]
+  have hctx : (s2.cms j).ctx = c := by rw [g3]; exact hc
+  have hcn : (s2.ctxs (s2.cms j).ctx).canceled = false := by rw [hctx, g2]; exact hlive
+  obtain ⟨f', g, o1, o2, o3, o4, o5, o6, o7⟩ := proxyInterface_out Cfg.fixed s2 s3 _ _ _ m _ _ hcn hp
+  have hlk : lookup (s.vtyp v) (s.ctxs c).cache = some f := (hI.a v f c hv).2
+  have hmem' : m ∈ s.types (s.vtyp v) := by
+    rw [htyp, g9] at hmem; exact hasMethod_mem _ _ hmem hns
+  have hf : f' = f ∧ g = (s.fakes f).fn := by
+    rcases o3 with ⟨_, _, h3⟩ | ⟨h1, h2⟩
+    · rw [htyp, hctx, g2] at h3; simp only at h3; rw [hlk] at h3; cases h3
+    · rw [htyp, hctx, g2] at h1; simp only at h1; rw [hlk] at h1; cases h1
+      exact ⟨rfl, by rw [h2, g7]⟩
+  obtain ⟨e1, e2⟩ := hf
+  subst e1
+  subst he
+  constructor
+  · simp only; rw [o1, g4]; simp only; rw [hvar, hctx]; exact upd_same _ _ _
+  · simp only; rw [o2, upd_same, e2, htyp, g9]; simp only
+    rw [methodIndexOf_eq_idxOf _ _ hmem' hns]
+
+
+theorem interfaceOf_lookup (cfg : Cfg) (s : St) (b v : Nat) :
+    lookup (bkey cfg s v) ((interfaceOf cfg s b v).2.blds b).mockers = some (interfaceOf cfg s b v).1 := by
+  simp only [interfaceOf]
+  split
+  · rename_i j hj
+    split
+    · simp [freshCM, lookup_insertKV]
+    · exact hj
+  · simp [freshCM, lookup_insertKV]
+
+theorem proxyInterface_frame (cfg : Cfg) (s s' : St) (v t c : Nat) (m : String) (k : Nat) (cb : Cb)
+    (hs : proxyInterface cfg s v t c m k cb = some s') :
+    s'.blds = s.blds ∧ s'.cms = s.cms ∧ s'.ncb = s.ncb ∧ (s'.ctxs c).canceled = (s.ctxs c).canceled := by
+  simp only [proxyInterface] at hs
+  split at hs
+  · cases hs
+  · split at hs <;> (cases hs; simp)
+
+theorem methodOf_frame (s : St) (j : Nat) (m : String) :
+    (methodOf s j m).2.blds = s.blds ∧ (methodOf s j m).2.ncb = s.ncb ∧ (∀ j', ((methodOf s j m).2.cms j').ctx = (s.cms j').ctx) := by
+  simp only [methodOf]
+  split
+  · split
+    · refine ⟨rfl, rfl, fun j' => ?_⟩
+      by_cases e : j' = j
+      · subst e; simp [freshMM]
+      · simp [freshMM, upd_other _ _ _ _ e]
+    · exact ⟨rfl, rfl, fun _ => rfl⟩
+  · refine ⟨rfl, rfl, fun j' => ?_⟩
+    by_cases e : j' = j
+    · subst e; simp [freshMM]
+    · simp [freshMM, upd_other _ _ _ _ e]
+
+theorem mockOn_frame (cfg : Cfg) (s1 s' : St) (j : Nat) (m : String) (kind : Kind) (fits : Bool) (k : Nat)
+    (hs : mockOn cfg s1 j m kind fits k = some (s', .ok)) :
+    s'.blds = s1.blds ∧ s'.ncb = s1.ncb ∧ (∀ j', (s'.cms j').ctx = (s1.cms j').ctx) := by
+  have mf := methodOf_frame s1 j m
+  simp only [mockOn] at hs
+  split at hs
+  · cases hs
+  split at hs
+  · cases hs
+  generalize methodOf s1 j m = r2 at hs mf
+  obtain ⟨i, s2⟩ := r2
+  simp only at hs mf
+  obtain ⟨m1, m2, m3⟩ := mf
+  have fin : ∀ (cb : Cb) (s3 : St) (f : Nat → MM), proxyInterface cfg s2 (s1.cms j).var (s1.cms j).typ (s1.cms j).ctx m k cb = some s3 →
+      ({ s3 with mms := f } : St).blds = s1.blds ∧ ({ s3 with mms := f } : St).ncb = s1.ncb
+        ∧ (∀ j', (({ s3 with mms := f } : St).cms j').ctx = (s1.cms j').ctx) := by
+    intro cb s3 f hq
+    obtain ⟨p1, p2, p3, _⟩ := proxyInterface_frame cfg s2 s3 _ _ _ m _ _ hq
+    exact ⟨by simp only; rw [p1, m1], by simp only; rw [p3, m2], fun j' => by simp only; rw [p2]; exact m3 j'⟩
+  cases kind with
+  | ap =>
+    simp only at hs
+    split at hs
+    · cases hs
+    cases hq : proxyInterface cfg s2 (s1.cms j).var (s1.cms j).typ (s1.cms j).ctx m k .clo with
+    | none => simp [hq] at hs
+    | some s3 =>
+      simp only [hq, Option.map_some, Option.some.injEq, Prod.mk.injEq, and_true] at hs
+      subst hs; exact fin _ s3 _ hq
+  | rt =>
+    simp only at hs
+    split at hs
+    · cases hs
+    split at hs
+    · cases hs
+    cases hq : proxyInterface cfg s2 (s1.cms j).var (s1.cms j).typ (s1.cms j).ctx m k (.mk i) with
+    | none => simp [hq] at hs
+    | some s3 =>
+      simp only [hq, Option.map_some, Option.some.injEq, Prod.mk.injEq, and_true] at hs
+      subst hs; exact fin _ s3 _ hq
+  | wn a =>
+    simp only at hs
+    split at hs
+    · cases hs
+    split at hs
+    · cases hs
+    cases hq : proxyInterface cfg s2 (s1.cms j).var (s1.cms j).typ (s1.cms j).ctx m k (.mk i) with
+    | none => simp [hq] at hs
+    | some s3 =>
+      simp only [hq, Option.map_some, Option.some.injEq, Prod.mk.injEq, and_true] at hs
+      subst hs; exact fin _ s3 _ hq
+
+/-- after a successful mock the builder's cached mocker for `v` exists, its context is live and `v` holds its fake -/
+theorem mock_establishes_live (s s' : St) (hr : Reachable s) (b v : Nat) (m : String) (kind : Kind) (csig : Nat)
+    (hs : step Cfg.fixed s (.mock b v m kind csig) = some (s', .ok)) :
+    ∃ f c j, s'.vars v = .fake f c ∧ lookup (bkey Cfg.fixed s' v) (s'.blds b).mockers = some j ∧ (s'.cms j).ctx = c
+      ∧ (s'.ctxs c).canceled = false ∧ s'.ncb = s.ncb + 1 ∧ s'.types = s.types ∧ s'.vtyp = s.vtyp := by
+  have hI := reachable_inv hr
+  have hI0 := inv_ncb Cfg.fixed s (s.ncb + 1) hI
+  have f1 := interfaceOf_facts Cfg.fixed _ b v hI0
+  have hI1 := inv_interfaceOf Cfg.fixed _ b v hI0
+  have hlk := interfaceOf_lookup Cfg.fixed { s with ncb := s.ncb + 1 } b v
+  simp only [step, mockStep] at hs
+  generalize interfaceOf Cfg.fixed { s with ncb := s.ncb + 1 } b v = r1 at hs f1 hI1 hlk
+  obtain ⟨j, s1⟩ := r1
+  simp only at hs f1 hI1 hlk
+  obtain ⟨f1a, f1b, f1c, f1d, f1e, f1f, f1g, f1h, f1i, f1j⟩ := f1
+  obtain ⟨s2, s3, i, hI2, hfit, g1, g2, g3, g4, g5, hmem, g6, g7, g8, g9, g10, g11, hp, he⟩ :=
+    mockOn_ok Cfg.fixed s1 s' j m kind _ s.ncb hI1 hs
+  have mf := methodOf_facts s1 j m
+  have hcn : (s2.ctxs (s2.cms j).ctx).canceled = false := by rw [g2, g3]; exact f1b
+  obtain ⟨f', g, o1, o2, o3, o4, o5, o6, o7⟩ := proxyInterface_out Cfg.fixed s2 s3 _ _ _ m _ _ hcn hp
+  obtain ⟨p1, p2, p3, p4⟩ := proxyInterface_frame Cfg.fixed s2 s3 _ _ _ m _ _ hp
+  have hv : (s2.cms j).var = v := by rw [g4]; exact f1c rfl
+  obtain ⟨q1, q2, q3⟩ := mockOn_frame Cfg.fixed s1 s' j m kind _ s.ncb hs
+  have hc3 : (s3.ctxs (s2.cms j).ctx).canceled = false := by rw [p4]; exact hcn
+  subst he
+  refine ⟨f', (s2.cms j).ctx, j, ?_, ?_, ?_, ?_, ?_, ?_, ?_⟩
+  · simp only; rw [o1, hv]; exact upd_same _ _ _
+  · have e1 : s3.blds = s1.blds := q1
+    have e2 : s3.vtyp = s.vtyp := by rw [o6, g10, f1h]
+    have e3 : s1.vtyp = s.vtyp := f1h
+    simp only [bkey] at hlk ⊢
+    rw [e1, e2]; exact hlk
+  · simp only; rw [p2]
+  · exact hc3
+  · have : s3.ncb = s1.ncb := q2
+    simp only; rw [this, f1j]
+  · simp only; rw [o5, g9, f1g]
+  · simp only; rw [o6, g10, f1h]
+
+
+theorem run_append (cfg : Cfg) (l1 l2 : List Op) : ∀ s, run cfg s (l1 ++ l2) = (run cfg s l1).bind fun s1 => run cfg s1 l2 := by
+  induction l1 with
+  | nil => intro s; simp [run]
+  | cons op r ih =>
+    intro s
+    simp only [List.cons_append, run]
+    cases step cfg s op with
+    | none => simp
+    | some p => simp [ih]
+
+/-- reachable states are closed under builder-API steps -/
+theorem reachable_step {s s1 : St} {op : Op} {st : Status} (hr : Reachable s) (hapi : op.builderApi = true)
+    (hs : step Cfg.fixed s op = some (s1, st)) : Reachable s1 := by
+  obtain ⟨types, vtyp, vars0, sigs, ops, hv, ha, hrun⟩ := hr
+  refine ⟨types, vtyp, vars0, sigs, ops ++ [op], hv, ?_, ?_⟩
+  · intro o ho
+    rcases List.mem_append.mp ho with h | h
+    · exact ha o h
+    · simp at h; subst h; exact hapi
+  · rw [run_append, hrun]; simp [run, hs]
+
+/-- a history in which every step succeeds (status ok) -/
+def runOk (cfg : Cfg) : St → List Op → Option St
+  | s, [] => some s
+  | s, op :: r => match step cfg s op with
+    | some (s1, .ok) => runOk cfg s1 r
+    | _ => none
+
+/-- the slot table the property prescribes after mocking the methods `l` (in this order, callback ids counted from `k0`)
+    on top of table `g`: each method's slot is its own LATEST replacement, every other slot is untouched -/
+def specSlots (ms : List String) : List (String × Kind × Nat) → Nat → (Nat → Slot) → (Nat → Slot)
+  | [], _, g => g
+  | p :: r, k0, g => specSlots ms r (k0 + 1) (upd g (ms.idxOf p.1) (.stub k0))
+
+/-- **trace-level dispatch theorem — any order, any subset, any number of re-mocks.**  From a reachable state in which `v`
+    holds the fake interface of the live context of builder `b`'s mocker, after ANY sequence of successful mocks of `v`
+    through `b` (Apply / Return / When, methods in any order, repeated or not) the variable still holds the same fake
+    interface and its function table is exactly the table the property prescribes: every mocked method dispatches to its own
+    latest replacement, every other slot is what it was (`notImplement` if the method was never mocked in this context). -/
+theorem mock_sequence_slots (b v : Nat) (l : List (String × Kind × Nat)) : ∀ (s s' : St), Reachable s →
+    (∀ p ∈ l, NoShadow (s.types (s.vtyp v)) p.1) →
+    ∀ f c j, s.vars v = .fake f c → lookup (bkey Cfg.fixed s v) (s.blds b).mockers = some j → (s.cms j).ctx = c →
+    (s.ctxs c).canceled = false →
+    runOk Cfg.fixed s (l.map fun p => Op.mock b v p.1 p.2.1 p.2.2) = some s' →
+    s'.vars v = .fake f c ∧ (s'.fakes f).fn = specSlots (s.types (s.vtyp v)) l s.ncb (s.fakes f).fn := by
+  induction l with
+  | nil =>
+    intro s s' _ _ f c j hv _ _ _ hs
+    simp only [List.map_nil, runOk, Option.some.injEq] at hs
+    subst hs
+    exact ⟨hv, rfl⟩
+  | cons p r ih =>
+    intro s s' hr hns f c j hv hl hc hlive hs
+    simp only [List.map_cons, runOk] at hs
+    cases hq : step Cfg.fixed s (.mock b v p.1 p.2.1 p.2.2) with
+    | none => simp [hq] at hs
+    | some q =>
+      obtain ⟨s1, st⟩ := q
+      cases st with
+      | panic c' => simp [hq] at hs
+      | ok =>
+        simp only [hq] at hs
+        have hns0 := hns p List.mem_cons_self
+        obtain ⟨h1, h2⟩ := dispatch_frame_live s s1 hr b v p.1 p.2.1 p.2.2 hns0 hq f c j hv hl hc hlive
+        obtain ⟨f', c', j', e1, e2, e3, e4, e5, e6, e7⟩ := mock_establishes_live s s1 hr b v p.1 p.2.1 p.2.2 hq
+        rw [h1] at e1
+        cases e1
+        have hr1 : Reachable s1 := reachable_step hr rfl hq
+        have hns1 : ∀ p' ∈ r, NoShadow (s1.types (s1.vtyp v)) p'.1 := by
+          intro p' hp'; rw [e6, e7]; exact hns p' (List.mem_cons_of_mem _ hp')
+        obtain ⟨r1, r2⟩ := ih s1 s' hr1 hns1 f c j' h1 e2 e3 e4 hs
+        refine ⟨r1, ?_⟩
+        rw [r2, e6, e7, e5, h2]
+        rfl
+
+/-- non-vacuous: B, A again, B again (Return, When, Apply) on a two-method interface after a first mock of A -/
+example : (runOk Cfg.fixed (St.init (fun _ => sortMeths ["B", "A"]) (fun _ => 0) (fun _ => .val 0) (fun _ => [0, 0]))
+    [.mock 0 0 "A" .ap 0, .mock 0 0 "B" .rt 0, .mock 0 0 "A" (.wn 3) 0, .mock 0 0 "B" .ap 0]).map
+      (fun s => (callSlot s 0 "A", callSlot s 0 "B")) = some (some (.stub 2), some (.stub 3)) := by decide
+
 end C07
